@@ -94,3 +94,23 @@ Example C13_completion_421_example :
         OReturn (RvReplies [mkReply 229 [40;124;124;124;53;124;41]; mkReply 150 []; mkReply 421 []])] /\
   w_open w = false /\ has421 (w_trace w).
 Proof. exact completion_421_example. Qed.
+
+(* ---- a client that is not connected: every call but connect / disconnect, every such state, every server (Idle_Global.v) ---- *)
+From LibFtp Require Idle_Global.
+
+(* the call touches nothing: what it adds to the trace are notifications of observers (of the request that could not be sent)
+   and the closing of a leftover data socket object - no command line, no reply read, no data connection opened, no byte
+   moved, no stream or callback touched - and the client stays not connected *)
+Theorem C13_not_connected_touches_nothing : forall a w, Idle_Global.keeps a -> w_open w = false ->
+  exists es, w_trace (snd (step w a)) = w_trace w ++ es /\ Forall Idle_Global.silent es /\
+             w_open (snd (step w a)) = false.
+Proof. exact Idle_Global.step_not_connected_touches_nothing. Qed.
+Print Assumptions C13_not_connected_touches_nothing.
+
+Example C13_example_after_disconnect_nothing_is_touched :
+  let w0 := init_world (mkConfig Passive true TBinary false false) Idle_Global.idle_script in
+  let w1 := snd (steps w0 [AAddObserver 7; AConnect [104] 21 None; ADisconnect true]) in
+  let r := step w1 (ADownload [102] None None) in
+  w_open w1 = false /\ fst r = OThrow /\
+  skipn (length (w_trace w1)) (w_trace (snd r)) = [EObs 7 (ORequest [69;80;83;86])].
+Proof. exact Idle_Global.idle_example. Qed.
